@@ -3,7 +3,7 @@ from .. import simprop
 
 ID = "C05"
 FAMILY = "C05"
-VARIANTS = ("asan",)
+VARIANTS = ("asan", "rel")      # rel: only to re-judge a case that UBSan stopped (simprop)
 BUDGET = {"quick": dict(examples=80000, seconds=55), "thorough": dict(examples=2000000, seconds=540)}
 NONTRIVIAL = {"resource-contended", "resource-preempted"}
 RULE = ("Hypothesis-generated scenarios (profile 'mutex' 75%, 'mixed' 25%): 2-6 processes running acquire / hold 0|1 / "
